@@ -179,6 +179,8 @@ pub fn run(toks: &[&str]) -> String {
             "dot" => format!("{}/./{name}", dir.join("gens").display()),
             "dslash" => format!("{}//{name}", dir.join("gens").display()),
             "updown" => format!("{}/../gens/{name}", dir.join("gens").display()),
+            // an absolute path below the working directory, where no program is
+            "cwd" => format!("{}/tools/{name}", w.display()),
             "ctl" | "astral" => {
                 // a directory whose name contains control characters, or characters beyond the basic plane
                 let odd = dir.join("gens").join(if parts[3] == "ctl" { "c\u{1}t\u{9b}l\u{7f}" } else { "a\u{1F600}\u{10FFFF}z" });
